@@ -1072,7 +1072,8 @@ def near_valid(prog, rng, which=None):
     """near-valid variants named by the property: recursion, zero limits, undeclared limit variables"""
     p = copy.deepcopy(prog)
     kinds = ["self_recursion", "mutual_recursion", "zero_limit", "undeclared_limit", "string_condition",
-             "recursion_in_parallel_loop", "recursion_in_parallel", "mutual_recursion_in_parallel_loop"]
+             "recursion_in_parallel_loop", "recursion_in_parallel", "mutual_recursion_in_parallel_loop",
+             "mutual_recursion_below_start"]
     kind = rng.choice(kinds) if which is None else kinds[(which // 10) % len(kinds)]
     tasks = p["tasks"]
     if kind == "self_recursion":
@@ -1082,6 +1083,14 @@ def near_valid(prog, rng, which=None):
         a, b = rng.sample(tasks, 2)
         a["body"].append({"k": "call", "name": b["name"], "ins": [], "outs": []})
         b["body"].append({"k": "call", "name": a["name"], "ins": [], "outs": []})
+    elif kind == "mutual_recursion_below_start" and len([x for x in tasks if x["name"] != "productionTask" and not x.get("ins")]) >= 2:
+        # a cycle of two tasks that lies below the production task (which is not on the cycle) and is reached from it
+        cand = [x for x in tasks if x["name"] != "productionTask" and not x.get("ins")]
+        a, b = rng.sample(cand, 2)
+        a["body"].append({"k": "call", "name": b["name"], "ins": [], "outs": []})
+        b["body"].insert(rng.randint(0, len(b["body"])), {"k": "call", "name": a["name"], "ins": [], "outs": []})
+        top = next(x for x in tasks if x["name"] == "productionTask")
+        top["body"].append({"k": "call", "name": a["name"], "ins": [], "outs": []})
     elif kind == "recursion_in_parallel_loop":
         t = rng.choice([x for x in tasks if not x.get("ins")] or tasks)
         t["body"].append({"k": "ploop", "var": "zq", "limit": 1, "call": {"k": "call", "name": t["name"], "ins": [], "outs": []}})
